@@ -151,33 +151,53 @@ def r2(ctx):
                           (key, sorted(map(list, trs))))
 
 
-def _results(n, out):
-    """leaf result expressions of an arm body (returns and tail values), in source order"""
+def _results(n, out, neg=False, inl=False):
+    """leaf result expressions of an arm body (returns and tail values), in source order.  A helper inlined by the
+    normaliser contributes its own returns (InlRet) and tail; `!{compound}` contributes the negations of the compound's results."""
     n = peel(n, methods=False)
     k = n["k"]
+
+    def leaf(x):
+        out.append({"k": "Un", "op": "!", "e": x, "sp": x.get("sp", "?")} if neg else x)
     if k == "Block":
+        is_inl = bool(n.get("inl"))
         for s in n["stmts"]:
             for x in walk_exprs(s):
-                if x["k"] == "Ret" and "e" in x:
-                    _results(x["e"], out)
+                if x["k"] == "Ret" and "e" in x and not is_inl and not inl:
+                    _results(x["e"], out, False)
+                elif x["k"] == "InlRet" and "e" in x and (is_inl or inl):
+                    _results(x["e"], out, neg, True)
         if "expr" in n:
-            _results(n["expr"], out)
+            _results(n["expr"], out, neg, inl or is_inl)
     elif k == "Match":
         for a in n["arms"]:
-            _results(a["body"], out)
+            _results(a["body"], out, neg, inl)
     elif k == "If":
-        _results(n["t"], out)
+        _results(n["t"], out, neg, inl)
         if "e" in n:
-            _results(n["e"], out)
-    elif k == "Ret":
+            _results(n["e"], out, neg, inl)
+    elif k in ("Ret", "InlRet"):
         if "e" in n:
-            _results(n["e"], out)
+            _results(n["e"], out, neg if k == "InlRet" else False, inl)
+    elif k == "Un" and n["op"] == "!" and peel(n["e"], methods=False)["k"] in ("Block", "Match", "If"):
+        _results(n["e"], out, not neg, inl)
     else:
-        out.append(n)
+        leaf(n)
 
 
-def _neg_of(pos, neg):
+def _neg_of(pos, neg, hir=None, ops=None):
     p, q = render(pos), render(neg)
+    if pos is neg and hir is not None and pos["k"] == "Bin" and pos["op"] in ("!=", "==", "^"):
+        # one merged arm for both operators: `matched != negated` with `negated` decided by the operator
+        import interp
+        for flag in (pos["l"], pos["r"]):
+            try:
+                vals = [interp.eval_in(hir, flag, {"op": interp.V("Op::" + o)}) for o in ops]
+            except interp.Undecided:
+                continue
+            if all(isinstance(v, bool) for v in vals):
+                return vals == ([False, True] if pos["op"] in ("!=", "^") else [True, False])
+        return False
     if is_call_to(pos, "error_exit") or "error_exit" in p:
         return "error_exit" in q
     if q == "!" + p:
@@ -200,12 +220,13 @@ def r3(ctx):
         a, b = [], []
         _results(t[pos], a)
         _results(t[neg], b)
-        ok = len(a) == len(b) and all(_neg_of(x, y) for x, y in zip(a, b)) and \
+        chir = ctx.anchor_hir(sem.CONFORMS)
+        ok = len(a) == len(b) and all(_neg_of(x, y, chir, (pos, neg)) for x, y in zip(a, b)) and \
             _translator_of(t[pos]) == _translator_of(t[neg])
         n += len(a)
         ctx.obligation(ok)
         if not ok:
-            bad = [(render(x), render(y)) for x, y in zip(a, b) if not _neg_of(x, y)]
+            bad = [(render(x), render(y)) for x, y in zip(a, b) if not _neg_of(x, y, chir, (pos, neg))]
             ctx.violation("complement/%s" % neg, ctx.where(sem.CONFORMS, t[neg]),
                           "the %s arm is not the negation of the %s arm result by result (%d vs %d results; mismatching: %s)"
                           % (neg, pos, len(b), len(a), bad[:2]))
